@@ -1,18 +1,18 @@
-\* facet "lists": comma lists mixing ids and real addresses, hosts other than *, ipc+tcp outputs, self reference, non-mq filter named as a source; exhaustive for 1-4 filters
+\* facet "lists": comma lists mixing ids and real addresses, hosts other than *, ipc+tcp outputs, self reference, non-mq filter named as a source; larger alphabet than the quick tier, exhaustive for 1-3 filters
 CONSTANTS
-  Sizes = {1, 2, 3, 4}
-  IpcModes = {FALSE}
+  Sizes = {1, 2, 3}
+  IpcModes = {FALSE, TRUE}
   Names = {"Util", "VideoOut"}
   GivenIds = {}
   NumIds = {}
-  SrcForms = {"absent", "ipc", "ref+tcp", "tcp+ref", "self"}
+  SrcForms = {"absent", "tcp", "ipc", "ref+tcp", "tcp+ref", "ref+ref", "self"}
   RefSuffixes = {";t"}
   AddrSuffixes = {"?"}
   UriSuffixes = {""}
   SrcHosts = {"localhost"}
   SrcPorts = {5552}
   OutForms = {"absent", "host", "ipc+tcp", "uri"}
-  OutHosts = {"127.0.0.1", "10.0.0.5"}
+  OutHosts = {"127.0.0.1", "10.0.0.5", "0.0.0.0"}
   Ports = {5554}
   IpcNames = {"pipe"}
   Extras = {""}
